@@ -87,7 +87,33 @@ impl std::fmt::Display for EndFailure {
 }
 impl std::error::Error for EndFailure {}
 
+/// zero-sized message body with a destructor (header-only messages carry it)
+#[derive(Debug)]
+struct Token;
+impl Token {
+    fn new() -> Self {
+        LIVE.with(|l| l.borrow_mut()[2] += 1);
+        Token
+    }
+}
+impl Clone for Token {
+    fn clone(&self) -> Self {
+        Token::new()
+    }
+}
+impl Drop for Token {
+    fn drop(&mut self) {
+        LIVE.with(|l| l.borrow_mut()[2] -= 1);
+    }
+}
+impl MessageBody for Token {
+    fn byte_len(&self) -> usize {
+        0
+    }
+}
+
 struct Scripted {
+    end_emit: bool,
     end_fail: bool,
     name: String,
     stages: usize,
@@ -112,6 +138,9 @@ impl Scripted {
                     v
                 });
                 let bytes = BYTES.with(|b| b.borrow()[size as usize]) - 64;
+                if bytes == 0 && id % 2 == 0 {
+                    return Message::default().id(id).kind(eat as u16).with_content(Token::new());
+                }
                 Message::default().id(id).kind(eat as u16).with_content(Payload { bytes, _life: Life::new(2) })
             };
             match c["c"].as_str().unwrap() {
@@ -179,6 +208,13 @@ impl Module for Scripted {
     }
     fn at_sim_end(&mut self) -> Result<(), RuntimeError> {
         log(json!({"o": "end", "m": self.name}));
+        if self.end_emit {
+            // messages emitted during tear-down are never processed; they must still be released with the simulation
+            schedule_in(Message::default().id(9000).with_content(Payload { bytes: 1, _life: Life::new(2) }), tick());
+            if self.name == "a" {
+                send(Message::default().id(9001).with_content(Payload { bytes: 1, _life: Life::new(2) }), "out");
+            }
+        }
         if self.end_fail {
             return Err(RuntimeError::from(EndFailure(self.name.clone())));
         }
@@ -240,6 +276,7 @@ pub struct NetCfg {
     pub bytes: Vec<usize>, // index by size (1-based; index 0 unused)
     pub max_t: u64,
     pub endfail: Vec<String>,
+    pub end_emit: bool,
 }
 
 impl NetCfg {
@@ -254,6 +291,7 @@ impl NetCfg {
             tick_ns: v["tick_ns"].as_u64().unwrap(),
             bytes: std::iter::once(0).chain(v["bytes"].as_array().unwrap().iter().map(|b| b.as_u64().unwrap() as usize)).collect(),
             max_t: v["max_t"].as_u64().unwrap(),
+            end_emit: v["end_emit"].as_bool().unwrap_or(false),
             endfail: v["endfail"].as_array().map(|a| a.iter().map(|x| x.as_str().unwrap().to_string()).collect()).unwrap_or_default(),
         }
     }
@@ -271,10 +309,23 @@ fn channel(cfg: &NetCfg, id: &str) -> Option<des::net::channel::ChannelRef> {
         (_, l) => ChannelDropBehaviour::Queue(Some(l as usize)),
     };
     let jitter = Duration::from_nanos(c["jitter_ns"].as_u64().unwrap_or(0));
-    Some(Channel::new(ChannelMetrics::new(c["bitrate"].as_u64().unwrap() as usize, tick * c["lat"].as_u64().unwrap() as u32, jitter, policy)))
+    let ch = Channel::new(ChannelMetrics::new(c["bitrate"].as_u64().unwrap() as usize, tick * c["lat"].as_u64().unwrap() as u32, jitter, policy));
+    WEAK_CHANS.with(|w| w.borrow_mut().push(std::sync::Arc::downgrade(&ch)));
+    Some(ch)
+}
+
+thread_local! {
+    static WEAK_GATES: RefCell<Vec<std::sync::Weak<des::net::gate::Gate>>> = const { RefCell::new(Vec::new()) };
+    static WEAK_CHANS: RefCell<Vec<std::sync::Weak<des::net::channel::Channel>>> = const { RefCell::new(Vec::new()) };
+}
+fn track_gate(g: GateRef) -> GateRef {
+    WEAK_GATES.with(|w| w.borrow_mut().push(std::sync::Arc::downgrade(&g)));
+    g
 }
 
 pub struct Outcome {
+    pub gates_alive: usize,
+    pub channels_alive: usize,
     pub log: Vec<Value>,
     pub err: BTreeSet<String>,
     pub tend: i64,
@@ -300,6 +351,8 @@ pub fn run_scenario_stop(cfg: &NetCfg, scripts: &Value, seed: u64, stop: &str) -
     JITTER_NS.with(|j| *j.borrow_mut() = cfg.chans["1"]["jitter_ns"].as_u64().unwrap_or(0) as u128 * 4);
     LIVE.with(|l| *l.borrow_mut() = [0; 3]);
     DROPPED_TWICE.with(|d| *d.borrow_mut() = 0);
+    WEAK_GATES.with(|w| w.borrow_mut().clear());
+    WEAK_CHANS.with(|w| w.borrow_mut().clear());
     let r = catch_unwind(AssertUnwindSafe(|| {
         let mut sim = Sim::new(());
         let any_stack = cfg.mods.iter().any(|m| cfg.stack[m].as_u64().unwrap_or(0) > 0);
@@ -311,21 +364,21 @@ pub fn run_scenario_stop(cfg: &NetCfg, scripts: &Value, seed: u64, stop: &str) -
             add_module(&mut sim, cfg, scripts, m);
         }
         // topology
-        let ao = sim.gate("a", "out");
-        let bi = sim.gate("b", "in");
+        let ao = track_gate(sim.gate("a", "out"));
+        let bi = track_gate(sim.gate("b", "in"));
         ao.connect(bi, channel(cfg, "1"));
-        let bo = sim.gate("b", "out");
-        let ai = sim.gate("a", "in");
+        let bo = track_gate(sim.gate("b", "out"));
+        let ai = track_gate(sim.gate("a", "in"));
         bo.connect(ai, None);
         if cfg.topo == "T2" {
-            let o2 = sim.gate("a", "o2");
-            let ct = sim.gate("c", "t");
-            let i2 = sim.gate("b", "i2");
+            let o2 = track_gate(sim.gate("a", "o2"));
+            let ct = track_gate(sim.gate("c", "t"));
+            let i2 = track_gate(sim.gate("b", "i2"));
             o2.connect(ct.clone(), None);
             ct.connect(i2, channel(cfg, "2"));
         }
         // a ring of four transit gates (reference cycle among gates, never used for traffic)
-        let (ra, rb, rc, rd) = (sim.gate("a", "ring1"), sim.gate("b", "ring1"), sim.gate("b", "ring2"), sim.gate("a", "ring2"));
+        let (ra, rb, rc, rd) = (track_gate(sim.gate("a", "ring1")), track_gate(sim.gate("b", "ring1")), track_gate(sim.gate("b", "ring2")), track_gate(sim.gate("a", "ring2")));
         ra.clone().connect(rb.clone(), None);
         rb.connect(rc.clone(), channel(cfg, "1"));
         rc.connect(rd.clone(), None);
@@ -351,7 +404,7 @@ pub fn run_scenario_stop(cfg: &NetCfg, scripts: &Value, seed: u64, stop: &str) -
         let rt = Builder::seeded(seed).quiet().max_time(limit).build(sim.freeze());
         Some(rt.run())
     }));
-    let mut out = Outcome { log: Vec::new(), err: BTreeSet::new(), tend: -1, result_ok: false, live_after_drop: [0; 3], dropped_twice: 0, panicked: false };
+    let mut out = Outcome { gates_alive: 0, channels_alive: 0, log: Vec::new(), err: BTreeSet::new(), tend: -1, result_ok: false, live_after_drop: [0; 3], dropped_twice: 0, panicked: false };
     match r {
         Err(_) => out.panicked = true,
         Ok(None) => {}
@@ -380,6 +433,8 @@ pub fn run_scenario_stop(cfg: &NetCfg, scripts: &Value, seed: u64, stop: &str) -
     out.log = LOG.with(|l| l.borrow().clone());
     out.live_after_drop = LIVE.with(|l| *l.borrow());
     out.dropped_twice = DROPPED_TWICE.with(|d| *d.borrow());
+    out.gates_alive = WEAK_GATES.with(|w| w.borrow().iter().filter(|g| g.strong_count() > 0).count());
+    out.channels_alive = WEAK_CHANS.with(|w| w.borrow().iter().filter(|g| g.strong_count() > 0).count());
     out
 }
 
@@ -388,6 +443,7 @@ fn add_module(sim: &mut des::net::SimBuilder<()>, cfg: &NetCfg, scripts: &Value,
     sim.node(
         m,
         Scripted {
+            end_emit: cfg.end_emit,
             end_fail: cfg.endfail.iter().any(|x| x == m),
             name: m.to_string(),
             stages: cfg.stages[m].as_u64().unwrap_or(1) as usize,
@@ -479,8 +535,8 @@ pub fn replay(args: &[String]) {
             fail("end time of the run", json!({"expected": v["tend"], "got": out.tend}));
             return;
         }
-        if out.live_after_drop != [0; 3] || out.dropped_twice != 0 {
-            fail("objects alive after the simulation was dropped [modules, elements, message bodies] / double drops", json!({"got": out.live_after_drop, "double_drops": out.dropped_twice}));
+        if out.live_after_drop != [0; 3] || out.dropped_twice != 0 || out.gates_alive != 0 || out.channels_alive != 0 {
+            fail("objects alive after the simulation was dropped [modules, elements, message bodies] / double drops", json!({"got": out.live_after_drop, "double_drops": out.dropped_twice, "gates_alive": out.gates_alive, "channels_alive": out.channels_alive}));
             return;
         }
         s.checks += out.log.len() as u64 + 3;
@@ -492,9 +548,9 @@ pub fn replay(args: &[String]) {
                 s.replays += 1;
                 if o.panicked {
                     s.mismatch(json!({"field": format!("simulation stopped at '{st}': building / running / dropping panicked"), "behaviour": v, "cfg": cfgv, "stop": st}));
-                } else if o.live_after_drop != [0; 3] || o.dropped_twice != 0 {
+                } else if o.live_after_drop != [0; 3] || o.dropped_twice != 0 || o.gates_alive != 0 || o.channels_alive != 0 {
                     s.mismatch(json!({"field": format!("objects alive after a simulation stopped at '{}' was dropped [modules, elements, message bodies] / double drops", st.split(':').next().unwrap()),
-                                      "got": o.live_after_drop, "double_drops": o.dropped_twice, "behaviour": v, "cfg": cfgv, "stop": st}));
+                                      "got": o.live_after_drop, "double_drops": o.dropped_twice, "gates_alive": o.gates_alive, "channels_alive": o.channels_alive, "behaviour": v, "cfg": cfgv, "stop": st}));
                 } else {
                     s.checks += 1;
                     s.bump("stopping_points_checked", 1);
